@@ -77,10 +77,63 @@ theorem untouched_map {w : World} {c : Nat} {k : MapKind} {kvs : List KV} (r : R
 
 theorem ok_absurd {α : Type} {r : Res α} {x : α} (h : r.out = .ok) : r.out ≠ .ok → r.inert x := fun h' => absurd h h'
 
+theorem inert_arrayPushAtTok (xs i t) (h : (arrayPushAtTok xs i t).out ≠ .ok) : (arrayPushAtTok xs i t).inert xs := by
+  simp only [arrayPushAtTok] at h ⊢
+  generalize (if i < 0 then (xs.length : Int) + 1 + i else i) = j at h ⊢
+  by_cases hb : j < 0 ∨ j > (xs.length : Int) <;> simp_all [Res.inert]
+
+theorem inert_listPushAtTok (xs i t) (h : (listPushAtTok xs i t).out ≠ .ok) : (listPushAtTok xs i t).inert xs := by
+  simp only [listPushAtTok] at h ⊢
+  by_cases hi : i = 0
+  · simp [hi] at h
+  · simp only [hi, if_false] at h ⊢
+    generalize (if i < 0 then (xs.length : Int) + i else i) = j at h ⊢
+    by_cases hb : j < 0 ∨ j ≥ (xs.length : Int) <;> simp_all [Res.inert]
+
+/-- a refused insertion of a Box argument: the pointee constructed for the call is the only thing constructed, nothing
+    but it is finalised (the caller deletes it), no container changes -/
+def BoxArgRefused (w : World) (res : World × Obs) : Prop :=
+  (∃ t, res.2.issued = [t] ∧ ∀ u ∈ res.2.retired, u = t) ∧ res.2.updated = [] ∧
+    ∀ e, lookup res.1.objs e = lookup w.objs e
+
+theorem mem_dedupIds {l : List Tok} {u : Tok} (h : u ∈ dedupIds l) : u ∈ l := by
+  induction l with
+  | nil => simp [dedupIds] at h
+  | cons t ts ih =>
+    simp only [dedupIds, List.mem_cons] at h ⊢
+    rcases h with h | h
+    · exact Or.inl h
+    · exact Or.inr (ih (List.mem_filter.mp h).1)
+
+theorem boxArg_seq {w : World} {c : Nat} {k : SeqKind} {xs : List Tok} (p : Nat) (f : Tok → Res (List Tok))
+    (tl : List Nat) (hl : lookup w.objs c = some (.seq k .box xs))
+    (hi : (f ⟨w.next, p⟩).out ≠ .ok → (f ⟨w.next, p⟩).inert xs)
+    (hr : (commitSeq w c k .box (withPointee w.next p f) tl).2.out ≠ .ok) :
+    BoxArgRefused w (commitSeq w c k .box (withPointee w.next p f) tl) := by
+  have hro : (f ⟨w.next, p⟩).out ≠ .ok := by
+    intro h; apply hr
+    simp only [commitSeq, commit, Res.unit, withPointee, h]
+  obtain ⟨h1, h2, h3, h4⟩ := hi hro
+  cases ho : (f ⟨w.next, p⟩).out with
+  | ok => exact absurd ho hro
+  | raised e =>
+    refine ⟨⟨⟨w.next, p⟩, ?_, ?_⟩, ?_, fun e' => ?_⟩
+    · simp [commitSeq, commit, Res.unit, withPointee, ho, h2]
+    · intro u hu
+      simp only [commitSeq, commit, Res.unit, withPointee, ho, h3, List.nil_append, beq_self_eq_true, Bool.true_or,
+        if_true] at hu
+      have := (List.mem_filter.mp (mem_dedupIds hu)).1
+      simpa using this
+    · simp [commitSeq, commit, Res.unit, withPointee, ho, h4]
+    · simp only [commitSeq, commit_objs, objsAfter, lookup_store, withPointee, ho, h1]
+      split
+      · rename_i he; rw [he, hl]
+      · rfl
+
 /-- a refused in-contract operation constructs nothing, finalises nothing, assigns nothing and leaves every container
     as it was -/
-theorem step_refused {w : World} (op : Op) (hin : inContract w op = true) (hr : (step w op).2.out ≠ .ok) :
-    Untouched w (step w op) := by
+theorem step_refused {w : World} (op : Op) (hin : noKnownFinding w op = true) (hr : (step w op).2.out ≠ .ok) :
+    Untouched w (step w op) ∨ (srcIsBox w op.target = true ∧ BoxArgRefused w (step w op)) := by
   cases op with
   | new c k => simp only [step] at hr ⊢; split at hr <;> simp [badOp, commit] at hr
   | newSeq c k ps => simp only [step] at hr ⊢; split at hr <;> simp [badOp, commitSeq, commit, Res.unit] at hr
@@ -99,49 +152,53 @@ theorem step_refused {w : World} (op : Op) (hin : inContract w op = true) (hr : 
   | push c p =>
     simp only [step] at hr ⊢
     split at hr
-    · rename_i k xs hl; (try simp only [hl]); exact untouched_seq _ _ _ hl (ok_absurd rfl) hr
-    · rename_i k xs hl; (try simp only [hl]); exact untouched_seq _ _ _ hl (ok_absurd rfl) hr
+    · rename_i k xs hl; (try simp only [hl]); exact Or.inl <| untouched_seq _ _ _ hl (ok_absurd rfl) hr
+    · rename_i k xs hl; (try simp only [hl]); exact Or.inl <| untouched_seq _ _ _ hl (ok_absurd rfl) hr
     · simp [badOp] at hr
   | pushAt c i p =>
     simp only [step] at hr ⊢
     split at hr
-    · rename_i xs hl; (try simp only [hl]); exact untouched_seq _ _ _ hl (inert_arrayPushAt _ _ _ _) hr
-    · rename_i xs hl; (try simp only [hl]); exact untouched_seq _ _ _ hl (inert_listPushAt _ _ _ _) hr
+    · rename_i xs hl; (try simp only [hl]); exact Or.inl <| untouched_seq _ _ _ hl (inert_arrayPushAt _ _ _ _) hr
+    · rename_i xs hl; (try simp only [hl]); exact Or.inl <| untouched_seq _ _ _ hl (inert_listPushAt _ _ _ _) hr
+    · rename_i xs hl
+      exact Or.inr ⟨by simp [srcIsBox, Op.target, hl, Cont.isBox], boxArg_seq p _ _ hl (inert_arrayPushAtTok _ _ _) hr⟩
+    · rename_i xs hl
+      exact Or.inr ⟨by simp [srcIsBox, Op.target, hl, Cont.isBox], boxArg_seq p _ _ hl (inert_listPushAtTok _ _ _) hr⟩
     · simp [badOp] at hr
   | pop c =>
     simp only [step] at hr ⊢
     split at hr
-    · rename_i k ek xs hl; (try simp only [hl]); exact untouched_seq _ _ _ hl (inert_seqPop _) hr
+    · rename_i k ek xs hl; (try simp only [hl]); exact Or.inl <| untouched_seq _ _ _ hl (inert_seqPop _) hr
     · simp [badOp] at hr
   | popAt c i =>
     simp only [step] at hr ⊢
     split at hr
-    · rename_i k ek xs hl; (try simp only [hl]); exact untouched_seq _ _ _ hl (inert_seqPopAt _ _) hr
+    · rename_i k ek xs hl; (try simp only [hl]); exact Or.inl <| untouched_seq _ _ _ hl (inert_seqPopAt _ _) hr
     · simp [badOp] at hr
   | set c i p =>
     simp only [step] at hr ⊢
     split at hr
-    · rename_i k xs hl; (try simp only [hl]); exact untouched_seq _ _ _ hl (inert_seqSetProbe _ _ _ _) hr
-    · rename_i k xs hl; simp [inContract, hl] at hin
+    · rename_i k xs hl; (try simp only [hl]); exact Or.inl <| untouched_seq _ _ _ hl (inert_seqSetProbe _ _ _ _) hr
+    · rename_i k xs hl; simp [noKnownFinding, hl] at hin
     · simp [badOp] at hr
   | rem c p =>
     simp only [step] at hr ⊢
     split at hr
-    · rename_i k xs hl; (try simp only [hl]); exact untouched_seq _ _ _ hl (inert_seqRem _ _) hr
+    · rename_i k xs hl; (try simp only [hl]); exact Or.inl <| untouched_seq _ _ _ hl (inert_seqRem _ _) hr
     · simp [badOp] at hr
   | resize c n =>
     simp only [step] at hr ⊢
     split at hr
     · rename_i ek xs hl; (try simp only [hl])
-      exact untouched_seq _ _ _ hl (ok_absurd (by unfold arrayResize seqClear; split <;> rfl)) hr
+      exact Or.inl <| untouched_seq _ _ _ hl (ok_absurd (by unfold arrayResize seqClear; split <;> rfl)) hr
     · rename_i ek xs hl; (try simp only [hl])
-      exact untouched_seq _ _ _ hl (ok_absurd (by unfold listResize seqClear; split <;> (try split) <;> rfl)) hr
-    · rename_i k kvs hl; (try simp only [hl]); exact untouched_map _ _ hl (inert_mapResize _ _ _) hr
+      exact Or.inl <| untouched_seq _ _ _ hl (ok_absurd (by unfold listResize seqClear; split <;> (try split) <;> rfl)) hr
+    · rename_i k kvs hl; (try simp only [hl]); exact Or.inl <| untouched_map _ _ hl (inert_mapResize _ _ _) hr
     · simp [badOp] at hr
   | sort c =>
     simp only [step] at hr ⊢
     split at hr
-    · rename_i xs hl; (try simp only [hl]); exact untouched_seq _ _ _ hl (ok_absurd rfl) hr
+    · rename_i xs hl; (try simp only [hl]); exact Or.inl <| untouched_seq _ _ _ hl (ok_absurd rfl) hr
     · simp [badOp] at hr
   | concat c d =>
     simp only [step] at hr ⊢
@@ -150,7 +207,20 @@ theorem step_refused {w : World} (op : Op) (hin : inContract w op = true) (hr : 
     · split at hr <;> simp [badOp, commitSeq, commit, Res.unit, seqConcatProbe, seqConcatBox] at hr
   | assign c d =>
     simp only [step] at hr ⊢
-    split at hr <;> simp [badOp, commitSeq, commitMap, commit, Res.unit, seqAssignProbe, seqAssignBox, mapAssign] at hr
+    split at hr
+    · split at hr <;> simp [badOp, commit] at hr
+    · rename_i hcd
+      split at hr
+      · simp [commitSeq, commit, Res.unit, seqAssignProbe] at hr
+      · simp [commitSeq, commit, Res.unit, seqAssignBox] at hr
+      · simp [commitMap, commit, Res.unit, mapAssign] at hr
+      · rename_i k ek xs _ src hl hd
+        exfalso; apply hr
+        have hsrc : src = [] := by
+          simp [noKnownFinding, srcIsBox, crossRefused, hl, hd, Cont.isBox, hcd] at hin; exact hin
+        subst hsrc
+        simp [commitSeq, commit, Res.unit, seqAssignFromMap]
+      · simp [badOp] at hr
   | copy c d =>
     simp only [step] at hr ⊢
     split at hr
@@ -160,16 +230,17 @@ theorem step_refused {w : World} (op : Op) (hin : inContract w op = true) (hr : 
     simp only [step] at hr ⊢
     split at hr
     · rename_i mk kvs hl; (try simp only [hl])
-      exact untouched_map _ _ hl (ok_absurd (by
+      exact Or.inl <| untouched_map _ _ hl (ok_absurd (by
         cases mk <;> simp only [mapSet, tableSet, treeSet] <;> split <;> rfl)) hr
     · simp [badOp] at hr
   | mrem c k =>
     simp only [step] at hr ⊢
     split at hr
-    · rename_i mk kvs hl; (try simp only [hl]); exact untouched_map _ _ hl (inert_mapRem _ _) hr
+    · rename_i mk kvs hl; (try simp only [hl]); exact Or.inl <| untouched_map _ _ hl (inert_mapRem _ _) hr
     · simp [badOp] at hr
   | del c => simp only [step] at hr ⊢; split at hr <;> simp [badOp, commit] at hr
-  | bassign c d => simp [inContract] at hin
+  | bassign c d => simp [noKnownFinding] at hin
+  | bref c p => simp [noKnownFinding] at hin
   | read c => simp only [step] at hr ⊢; split at hr <;> simp [badOp, commit] at hr
 
 end Cello.Own
